@@ -19,7 +19,11 @@ documented layouts ([n], [n,1], lists, strided, Fortran, integer) accepted.
 Cases: exhaustive small grids (n<=2, m<=3, values {0,1,2}: every tie pattern / outlier pattern), tie-rich
 dyadic grids, observations below / at / above the whole ensemble for every forecast, constant ensembles,
 single member, random normal with wide dynamic range, n up to 40, m up to 30, NaN observations and all-NaN
-rows; malformed stream: length mismatch, zero members, nothing valid. Non-trivial: accepted call with CRPS > 0.
+rows; malformed stream: length mismatch, zero members, nothing valid; shape stream: observations / ensembles
+given as scalars, vectors, [n,1], [1,n], [n,1,1], genuinely 2-D, empty (model op crpsnd, error kinds by name);
+history stream: 2-4 calls on the same argument objects with in-place edits of the arguments or of the returned
+objects, equal-size re-assignments, NaN set/cleared, other arguments in between, pickle/deepcopy round trips;
+one long series (n > 46340). Non-trivial: accepted call with CRPS > 0.
 """
 import errno
 import itertools
@@ -69,29 +73,36 @@ def as_arrays(np, case):
     raise ValueError(layout)
 
 
-def call_impl(case):
-    import numpy as np
+def call_arrays(o, e):
+    """metrics.crps on the given objects -> (canonical result, decomposition Series, table DataFrame)"""
     from hydrodiy.stat import metrics
-    o, e = as_arrays(np, case)
     try:
         d, t = metrics.crps(o, e)
     except ValueError as ex:
         msg = str(ex)
         if "No valid data" in msg:
-            return ("err", "noValidData")
+            return ("err", "noValidData"), None, None
         if "Expected ens with first dim" in msg:
-            return ("err", "shape")
+            return ("err", "shape"), None, None
+        if "obs is not 1D" in msg:
+            return ("err", "obsNot1D"), None, None
         if "c_crps returns" in msg:
-            return ("err", "edom" if msg.strip().endswith(str(errno.EDOM)) else "kernel:" + msg[-6:])
-        return ("err", "other:ValueError:" + msg[:80])
+            return ("err", "edom" if msg.strip().endswith(str(errno.EDOM)) else "kernel:" + msg[-6:]), None, None
+        return ("err", "other:ValueError:" + msg[:80]), None, None
     except Exception as ex:  # noqa
-        return ("err", f"other:{type(ex).__name__}:{str(ex)[:80]}")
+        return ("err", f"other:{type(ex).__name__}:{str(ex)[:80]}"), None, None
     try:
         dec = [float(d[k]) for k in DEC]
         tab = [float(x) for x in t[COLS].values.ravel()]
     except Exception as ex:  # noqa
-        return ("err", f"other:labels:{type(ex).__name__}")
-    return ("ok", dec, tab)
+        return ("err", f"other:labels:{type(ex).__name__}"), None, None
+    return ("ok", dec, tab), d, t
+
+
+def call_impl(case):
+    import numpy as np
+    o, e = as_arrays(np, case)
+    return call_arrays(o, e)[0]
 
 
 def canon(res):
@@ -493,13 +504,14 @@ def kept_all_finite(case):
     return True
 
 
-def run_cases(ctx, cases, tag):
+def run_cases(ctx, cases, tag, precomputed=None):
+    """correspondence + oracle; `precomputed` = results already obtained on the real code (history streams)"""
     orc = Oracle(ctx)
     rng = ctx.rng
     results = []
     reqs, reqs_q, idx_q = [], [], []
     for k, case in enumerate(cases):
-        res = call_impl(case)
+        res = precomputed[k] if precomputed is not None else call_impl(case)
         results.append(res)
         reqs.append(request(case))
         n, m = len(case["obs"]), case["m"]
@@ -547,6 +559,138 @@ def run_cases(ctx, cases, tag):
         if rng.random() < (0.15 if big else 0.5):
             orc.invariances(slim, res, ex, tolg, bool(case.get("grid")))
         orc.missing(slim, res)
+
+
+def shape_stream(ctx):
+    """shape handling of __check_ensemble_data: obs/ens given with many shapes (scalars, vectors, [n,1], [1,n],
+    [n,1,1], genuinely 2-D observations, 1-D ensembles, empty axes); model op `crpsnd`; error kinds by name.
+    Oracle: the documented layouts ([n] or [n,1] observations with an [n,p] ensemble) give the result of the
+    plain [n] call."""
+    import numpy as np
+    rng = ctx.rng
+    reqs, impls, cases = [], [], []
+    for _ in range(ctx.scale(400, 3000)):
+        n, m = rng.choice([1, 1, 2, 3, rng.randint(1, 7)]), rng.choice([1, 2, rng.randint(1, 5)])
+        okind = rng.choice(["vec", "col", "col", "row", "col3", "scalar", "mat", "mat_t", "empty", "other_len"])
+        ekind = rng.choice(["mat", "mat", "mat", "vec", "scalar", "mat_t", "zero_cols", "zero_rows"])
+        oshape = {"vec": (n,), "col": (n, 1), "row": (1, n), "col3": (n, 1, 1), "scalar": (), "mat": (n, 2) if n > 1 else (2, 2),
+                  "mat_t": (2, n) if n > 1 else (3, 2), "empty": (0,), "other_len": (n + 1,)}[okind]
+        eshape = {"mat": (n, m), "vec": (m,), "scalar": (), "mat_t": (m, n), "zero_cols": (n, 0), "zero_rows": (0, m)}[ekind]
+        vs = grid_values(rng)
+        o = np.array([rng.choice(vs) for _ in range(int(np.prod(oshape)))], dtype=np.float64).reshape(oshape)
+        e = np.array([rng.choice(vs) for _ in range(int(np.prod(eshape)))], dtype=np.float64).reshape(eshape)
+        if o.size and rng.random() < 0.2:
+            o.flat[rng.randrange(o.size)] = NAN
+        res = call_arrays(o, e)[0]
+        case = {"family": f"shape/{okind}x{ekind}", "obs_shape": list(oshape), "obs": [float(x) for x in o.ravel()],
+                "ens_shape": list(eshape), "ens": [float(x) for x in e.ravel()]}
+        reqs.append(f"crpsnd {C.ilist(oshape)} {C.flist(o.ravel())} {C.ilist(eshape)} {C.flist(e.ravel())}")
+        impls.append(res)
+        cases.append(case)
+        ctx.count(("shape", case["obs_shape"], case["ens_shape"], case["obs"], case["ens"]), res[0] == "ok",
+                  branch=f"shape/{okind}x{ekind}" + ("" if res[0] == "ok" else "->" + res[1].split(":")[0]))
+        # oracle: documented layouts agree with the plain vector call
+        if okind in ("vec", "col") and ekind == "mat" and not all(isnan(x) for x in o.ravel()):
+            flat = call_arrays(np.ascontiguousarray(o.reshape(-1)), e)[0]
+            if res[0] != "ok":
+                ctx.finding(f"crps/rejects_valid_input/layout={'column' if okind == 'col' else 'flat'}" +
+                            ("/n=1" if okind == "col" and n == 1 else ""),
+                            "finite, well-shaped input is rejected: " + res[1], case)
+            elif canon(flat) != canon(res):
+                ctx.finding("crps/layout_changes_result", "the [n,1] observation layout gives another result than [n]", case)
+    for req, res, rep, case in zip(reqs, impls, ctx.lean.ask(reqs), cases):
+        if same_float(res, parse_model(rep)):
+            ctx.compare("C03/shape", case, "agree", "agree")
+        else:
+            ctx.compare("C03/shape", case, canon(res)[:1500], rep[:1500])
+
+
+def history_stream(ctx):
+    """short histories on ONE pair of argument objects: call -> (edit the returned Series/DataFrame in place |
+    edit obs / ens in place, equal size | set / clear a NaN observation | call with other arguments of the same
+    shape | deepcopy / pickle round trip of the arguments) -> call again, 2-4 steps. Every answer is compared with
+    the model and checked by the oracle on the state the arguments had at that call; earlier answers must not
+    change when the arguments are edited afterwards."""
+    import copy
+    import pickle
+    import numpy as np
+    rng = ctx.rng
+    cases, results = [], []
+
+    def snap(o, e, fam):
+        return {"family": fam, "obs": [float(x) for x in o], "ens": [[float(x) for x in r] for r in e],
+                "m": int(e.shape[1]), "layout": "flat", "grid": True}
+
+    def scribble(d, t):
+        for obj in (d, t):
+            if obj is None:
+                continue
+            try:
+                a = obj.to_numpy(copy=False)
+                a.setflags(write=True)
+                a[...] = -99.0
+            except Exception:  # noqa
+                pass
+            try:
+                obj.iloc[:] = -77.0
+            except Exception:  # noqa
+                pass
+
+    for _ in range(ctx.scale(250, 2500)):
+        n, m = rng.randint(1, 8), rng.randint(1, 5)
+        vs = grid_values(rng) + [rng.randint(-12, 12) / 4 for _ in range(2)]
+        obs = np.array([rng.choice(vs) for _ in range(n)], dtype=np.float64)
+        ens = np.array([[rng.choice(vs) for _ in range(m)] for _ in range(n)], dtype=np.float64)
+        steps = [rng.choice(["edit_returned", "edit_obs", "edit_ens", "sort_row", "reverse", "nan_toggle", "other_args",
+                             "roundtrip"]) for _ in range(rng.randint(1, 3))]
+        fam = "history/" + "+".join(steps)
+        held = []            # (snapshot of an earlier answer, the live objects)
+        res, d, t = call_arrays(obs, ens)
+        cases.append(snap(obs, ens, fam))
+        results.append(res)
+        held.append((res, d, t))
+        for st in steps:
+            o_call, e_call = obs, ens
+            if st == "edit_returned":
+                scribble(d, t)
+                held.pop()
+            elif st == "edit_obs":
+                obs[rng.randrange(n)] = rng.choice(vs)
+            elif st == "edit_ens":
+                ens[rng.randrange(n), rng.randrange(m)] = rng.choice(vs)
+            elif st == "sort_row":
+                ens[rng.randrange(n)].sort()
+            elif st == "reverse":
+                obs[:] = obs[::-1].copy()
+                ens[:] = ens[::-1].copy()
+            elif st == "nan_toggle":
+                k = rng.randrange(n)
+                if isnan(obs[k]):
+                    obs[k] = rng.choice(vs)
+                elif sum(1 for y in obs if not isnan(y)) > 1:
+                    obs[k] = NAN
+            elif st == "other_args":
+                o2 = np.array([rng.choice(vs) for _ in range(n)], dtype=np.float64)
+                e2 = np.array([[rng.choice(vs) for _ in range(m)] for _ in range(n)], dtype=np.float64)
+                r2 = call_arrays(o2, e2)[0]
+                cases.append(snap(o2, e2, fam))
+                results.append(r2)
+            elif st == "roundtrip":
+                o_call = pickle.loads(pickle.dumps(obs)) if rng.random() < 0.5 else copy.deepcopy(obs)
+                e_call = pickle.loads(pickle.dumps(ens)) if rng.random() < 0.5 else copy.deepcopy(ens)
+            res, d, t = call_arrays(o_call, e_call)
+            cases.append(snap(o_call, e_call, fam))
+            results.append(res)
+            # answers handed out earlier are not views of anything the later calls or edits touch
+            for (r0, d0, t0) in held:
+                if r0[0] == "ok":
+                    now = [float(d0[k]) for k in DEC] + [float(x) for x in t0[COLS].values.ravel()]
+                    if C.flist(now) != C.flist(r0[1] + r0[2]):
+                        ctx.finding("crps/history/earlier_answer_changed",
+                                    "a result returned earlier changed after a later call / an in-place edit of the arguments",
+                                    {**cases[-1], "steps": steps})
+            held.append((res, d, t))
+    run_cases(ctx, cases, "history", precomputed=results)
 
 
 def large_n(ctx):
@@ -599,6 +743,8 @@ def body(ctx):
                            "layout": c.get("layout", "flat"), "grid": bool(c.get("grid", False))})
     run_cases(ctx, corpus, "corpus")
     run_cases(ctx, gen_cases(ctx), "gen")
+    shape_stream(ctx)
+    history_stream(ctx)
     large_n(ctx)
     ctx.extra["rule"] = __doc__.split("Cases:")[1].strip()
     ctx.assumptions += [
